@@ -16,7 +16,7 @@ from props.graphfacts import conclude, replay  # noqa: F401
 from props.c15 import split_tree
 
 THEOREMS = ["Rva.region_marks_columns", "Rva.sortDiags_sorted", "Rva.lint_titles_nonempty",
-            "Rva.lint_severity_functional", "Rva.lint_tables_total", "Rva.excerpt_aligned"]
+            "Rva.lint_severity_functional", "Rva.lint_tables_total", "Rva.excerpt_aligned", "Rva.marker_cells"]
 
 LEVELS = {"Error", "Warning", "Info", "Hint"}
 
@@ -106,6 +106,8 @@ def run(res, tier, seed):
                 # parse errors and a graph-construction error in the same input: every channel
                 # reports both
                 ls = s.split("\n")
+                if j == 0:
+                    ls.insert(1, "    addi t0, t0")          # an error located on the end of the line
                 for _ in range(rng.randrange(1, 3)):
                     ls.insert(rng.randrange(1, len(ls)), "    " + rng.choice(
                         ["mul a0, a0", ".bogus 3", "foo a0, a1", "addi a0, a0, 99999999999", "li a0, 1 +"]))
@@ -113,7 +115,7 @@ def run(res, tier, seed):
         s = "".join(ch for ch in s if ord(ch) < 128 or ch == "é")
         d = os.path.join(root, str(j))
         os.makedirs(d, exist_ok=True)
-        multi = rng.random() < 0.3 and ".include" not in s
+        multi = rng.random() < 0.3 and ".include" not in s and j != 0
         if multi:
             files, mapping = split_tree(rng, s.rstrip("\n").split("\n"))
             for name, lines in files.items():
@@ -121,7 +123,10 @@ def run(res, tier, seed):
                     f.write("\n".join(lines) + "\n")
             stats["multi_file"] += 1
         else:
-            with open(os.path.join(d, "base.s"), "w") as f:
+            if (rng.random() < 0.25 or j == 0) and '"' not in s:
+                s = s.replace("\n", "\r\n")          # a file saved with CRLF line endings
+                stats["crlf_files"] = stats.get("crlf_files", 0) + 1
+            with open(os.path.join(d, "base.s"), "w", newline="") as f:
                 f.write(s)
         # inputs whose diagnostics depend on hash order (known findings F-14/F-15/F-28, judged by
         # C10) cannot be compared across separate processes: the model tells which they are
@@ -197,6 +202,11 @@ def run(res, tier, seed):
             if "panicked" in err:
                 first = first or {"what": "pretty printer panics: " + err.strip().split("\n")[0][:200], "dir": d}
                 continue
+            bad_ctl = sorted(set(ch for ch in pt if ord(ch) < 32 and ch not in "\n\t"))
+            if bad_ctl and first is None:
+                first = {"what": f"the pretty output contains the control character(s) {bad_ctl!r} (copied from the source line "
+                                 "into the marker line: the terminal draws the marker somewhere else)", "dir": d,
+                         "replay_cmd": f"cd {d} && {RVA} lint --no-color {' '.join(allf)} base.s | od -c | grep -n '\\\\r'"}
             pp = parse_pretty(pt)
             gotp = [(l, t, os.path.realpath(os.path.join(d, p)) if p != "<unknown file>" else p) for l, t, p, *_ in pp]
             wantp = [(a, b, c) for a, b, c, *_ in want]
